@@ -145,10 +145,12 @@ outer:
 
 func (p *Parser) Close() {
 	p.close <- true
+	verifC10(p, "parser.closeSent")
 }
 
 func (p *Parser) WaitClose() {
 	<-p.closed
+	verifC10(p, "parser.closedTaken")
 }
 
 func (p *Parser) readRune() rune {
